@@ -27,7 +27,7 @@ for L in "$@"; do
   put; mut=$(run)
   echo "$id $L pkg=$pkg demo_on_clean_rc=$clean suite_with_mutant_rc=$suite demo_with_mutant_rc=$mut"
   if [ "$clean" = 0 ] && [ "$suite" = 0 ] && [ "$mut" != 0 ]; then
-    out=/verif/seeded/$id-$L; mkdir -p $out
+    out=${SEEDED_OUT:-/verif/seeded}/$id-$L; mkdir -p $out
     cp $d $out/patch.diff; cp $demo $out/demo_test.go; cp $src/$id/NOTES.md $out/NOTES_from_author.md
     for extra in $(helpers); do cp $extra $out/; done
     echo "$clean $suite $mut $pkg $tests" > $out/.confirm
